@@ -127,7 +127,7 @@ def job_trace(driver_args, spec, out_name, d, desc, port=None, lin=False):
     if port:
         args += ["--port", port]
     st = harness(args, timeout=1800)
-    if driver_args[0] == "cfg-suite" and "--conn-only" not in [str(x) for x in driver_args]:
+    if driver_args[0] == "cfg-suite" and "--conn-only" not in [str(x) for x in driver_args] and "--mem-probe" not in [str(x) for x in driver_args]:
         # the suite writes four traces: pick the one the spec validates
         out = out + {"WireTcpTrace": ".wire.ndjson", "MemcTrace": ".cmd.ndjson", "ServerTrace": ".conn.ndjson", "CountTrace": ".count.ndjson"}.get(spec, ".cmd.ndjson")
     if lin:
@@ -616,15 +616,31 @@ def conc_eviction_extra(pid, tier, seed):
         return job_trace(j[0], j[1], j[2], run.dir, j[3], lin=True)
     for job, res in parallel(one, jobs, workers=6):
         absorb_lin(run, job, res)
+    # the memcrsd binary with --eviction-policy random --memory-limit 64KiB / 200KiB under both runtime types: the limit
+    # given on the command line is the one the eviction works with (four times the limit is offered; judged by CountTrace)
+    binp = build_memcrsd()
+    pjobs = []
+    for i, (rt, th, memarg, lim) in enumerate([("current-thread", 2, "64KiB", 65536), ("multi-thread", 4, "200KiB", 204800)] +
+                                              ([] if quick else [("current-thread", 8, "1MiB", 1 << 20), ("multi-thread", 1, "65536", 65536)])):
+        pjobs.append((["cfg-suite", "--bin", binp, "--runtime", rt, "--threads", th, "--policy", "random", "--memory", memarg, "--mem-probe", lim,
+                       "--conn-limit", 8, "--item-limit", 2048, "--count", 1, "--seed", seed, "--port", ports(40 + 2 * i)], "CountTrace",
+                      "memprobe-%d.ndjson" % i, "memory limit %s on memcrsd %s/%d" % (memarg, rt, th), None))
+    for job, res in parallel(lambda j: job_trace(j[0], j[1], j[2], run.dir, j[3]), pjobs, workers=4):
+        run.add_result(job, res)
+        run.traces += 1
+    if not run.cov.get("memory.limit.enforced"):
+        if not run.bad:
+            raise ToolError("vacuous memory-limit probe for %s" % pid)
     bad = []
     for (job, res, v) in run.bad:
         if len(bad) < 4:
-            path = write_replay(pid, {"driver": job.get("driver"), "args": job.get("args"), "spec": "MemcLin", "property": pid, "violation": v})
+            path = write_replay(pid, {"driver": job.get("driver"), "args": job.get("args"), "spec": job.get("spec", "MemcLin"), "property": pid, "violation": v})
             log("VIOLATION property=%s replay=%s" % (pid, path))
             log("  %s: %s" % (job.get("desc"), json.dumps(v)[:200]))
         bad.append(v)
     return len(bad), {"concurrent_eviction": {"histories": run.traces, "schedules_executed": run.extra.get("schedules_executed", 0),
                                               "accepted": run.cov.get("history.linearizable", 0),
+                                              "memory_limit_probes_on_the_binary": run.cov.get("memory.limit.enforced", 0),
                                               "mc_runs": [{"cfg": r["cfg"], "distinct": r["distinct"], "generated": r["generated"]} for r in run.mc]}}
 
 
